@@ -280,6 +280,7 @@ def py_monitors(sc, trace, final=None):
     pending_rows = []
     collected = []
     node_group = {}
+    node_batch = {}
     for i, ev in enumerate(trace):
         k = ev["k"]
         if k == "create":
@@ -306,6 +307,7 @@ def py_monitors(sc, trace, final=None):
             indices[ev["index"]] = i
             if ev["ok"] and isinstance(ev.get("group"), str):
                 node_group[ev["id"]] = ev["group"]
+                node_batch[ev["id"]] = ([n for n, _ in ev["jobs"]], ev["group"])
             for n, _ in ev["jobs"]:
                 if n in rows and rows[n][1] == "canceled":
                     probs.append(("C01", "canceled-job-handed-to-hpc", f"job {n} was canceled (result recorded) and is now placed in batch {ev['index']}", i))
@@ -347,9 +349,14 @@ def py_monitors(sc, trace, final=None):
             if miss:
                 probs.append(("C02", "started-before-blocker-outcome", f"job {n} started before {miss} had an outcome", i))
             nd = ev.get("node")
-            depth = None
-            if ev.get("live") is not None and nd is not None:
-                pass
+            if ev.get("live") is not None and nd in node_batch:
+                bjobs, bgroup = node_batch[nd]
+                gcb = next((x for x in sc["groups"] if x["name"] == bgroup), None)
+                if gcb is not None:
+                    workers = gcb.get("nproc") if gcb.get("nproc") is not None else sc.get("node_cpus", 4)
+                    depth = min(len(bjobs), workers)
+                    if ev["live"] > depth:
+                        probs.append(("C06", "processes-exceed-limit", f"{ev['live']} job processes run on node {nd} but the batch's group {bgroup} allows {depth}", i))
             node_launches.setdefault(nd, []).append(i)
             if (sc.get("hooks") or {}).get("node_setup") and node_setup.get(nd, 0) != 1:
                 probs.append(("C16", "node-setup-missing", f"job {n} started on node {nd} with {node_setup.get(nd, 0)} node setup runs", i))
@@ -469,8 +476,13 @@ def apply_action(vc, act, rng):
     if do == "cancel":
         vc.cancel(complete=act.get("complete", True))
         return "cancel"
+    if do == "strategy":
+        vc.strategy = act["value"]
+        return "strategy:" + act["value"]
     if do == "try":
         vc.try_submit(host=act.get("host", "login1"))
+        if act.get("then_strategy"):
+            vc.strategy = act["then_strategy"]
         return "try"
     if do == "resubmit":
         vc.resubmit(**act.get("flags", {}))
